@@ -164,6 +164,8 @@ pub fn classgroup(
     if let Some(pool) = tpool.as_ref() {
         pool.install(|| {
             a_ints.par_iter().for_each(|&a_int| {
+                #[cfg(yamaquasi_verif)]
+                crate::verif_sched::yield_point(16);
                 if s.done.load(Ordering::Relaxed) || prefs.abort() {
                     return;
                 }
@@ -314,6 +316,8 @@ fn sieve_a(s: &ClSieve, a_int: &Uint, factors: &Factors) {
     // Storage for recycled resources.
     let mut recycled = None;
     for idx in 0..polys_per_a {
+        #[cfg(yamaquasi_verif)]
+        crate::verif_sched::yield_point(17);
         if s.done.load(Ordering::Relaxed) {
             // Interrupt early.
             return;
@@ -325,6 +329,8 @@ fn sieve_a(s: &ClSieve, a_int: &Uint, factors: &Factors) {
         recycled = Some(siqs_sieve_poly(s, a, &pol, recycled));
         // Check status.
         s.polys_done.fetch_add(1, Ordering::SeqCst);
+        #[cfg(yamaquasi_verif)]
+        crate::verif_sched::yield_point(18);
         if s.rels.read().unwrap().done() {
             s.done.store(true, Ordering::Relaxed);
         }
@@ -371,6 +377,8 @@ fn siqs_sieve_poly(
         sieve_block_poly(s, pol, a, &mut state);
     }
     while state.offset < end_offset {
+        #[cfg(yamaquasi_verif)]
+        crate::verif_sched::yield_point(19);
         if s.rels.read().unwrap().done() {
             // Exit early if finished.
             break;
@@ -514,6 +522,8 @@ fn sieve_block_poly(s: &ClSieve, pol: &Poly, a: &A, st: &mut sieve::Sieve) {
             large1,
             large2,
         };
+        #[cfg(yamaquasi_verif)]
+        crate::verif_sched::yield_point(20);
         let mut rels = s.rels.write().unwrap();
         rels.add(rel);
         if rels.done() {
